@@ -1087,8 +1087,8 @@ pub fn c15_sections(stats: &mut Stats) -> Vec<Failure> {
 }
 
 // ======================================================================================================== C16
-pub const C16_FILES: &[&str] = &["a.lua", "b.luau", "c.txt", ".h.lua", "s/d.lua", "s/.g/e.lua", "v/v.lua"];
-pub const C16_ARGS: &[&str] = &[".", "s", "a.lua", "./a.lua", "c.txt", "v/v.lua", "s/d.lua", ".h.lua"];
+pub const C16_FILES: &[&str] = &["a.lua", "b.luau", "c.txt", ".h.lua", "s/d.lua", "s/.g/e.lua", "v/v.lua", "s/t/u.lua"];
+pub const C16_ARGS: &[&str] = &[".", "s", "a.lua", "./a.lua", "c.txt", "v/v.lua", "s/d.lua", ".h.lua", "s/t"];
 /// ignore pattern lists (gitignore syntax); the model below implements exactly these
 pub const C16_IGNORES: &[&str] = &["v/\n", "*.lua\n", "*.lua\n!a.lua\n", "s/d.lua\n", "d.lua\n"];
 const UNF: &str = "local   x  =  1\n";
@@ -1119,7 +1119,9 @@ fn c16_glob_match(file: &str, globs: usize, luau: bool) -> bool {
     match globs {
         0 => base.ends_with(".lua") || (luau && base.ends_with(".luau")),
         1 => base.ends_with(".txt"),
-        _ => base.ends_with(".lua") && base != "d.lua",
+        2 => base.ends_with(".lua") && base != "d.lua",
+        // only a negated pattern: everything but what it names
+        _ => base != "d.lua",
     }
 }
 
@@ -1134,9 +1136,9 @@ fn c16_model(args: &[&str], ign: Option<(&str, usize)>, globs: usize, respect: b
     let mut set = std::collections::BTreeSet::new();
     for a in args {
         let canon = a.strip_prefix("./").unwrap_or(a);
-        if *a == "." || *a == "s" {
+        if *a == "." || *a == "s" || *a == "s/t" {
             for f in C16_FILES {
-                let under = *a == "." || f.starts_with("s/");
+                let under = *a == "." || f.starts_with(&format!("{}/", a));
                 if !under {
                     continue;
                 }
@@ -1198,11 +1200,16 @@ pub fn c16(thorough: bool, stats: &mut Stats) -> Vec<Failure> {
     let mut scs = vec![];
     for args in &arglists {
         for ign in &igns {
-            for globs in 0..3usize {
+            for globs in 0..4usize {
                 for respect in [false, true] {
                     for hidden in [false, true] {
                         for mode in ["write", "summary"] {
                             if !thorough && mode == "write" && args.len() > 1 && (globs != 0 || hidden) {
+                                continue;
+                            }
+                            // a glob list without a positive pattern selects every file, including (with --allow-hidden)
+                            // the `.styluaignore` file itself, which is not Lua: left out
+                            if globs == 3 && hidden && ign.is_some() {
                                 continue;
                             }
                             let mut t = Tree::default();
@@ -1220,6 +1227,7 @@ pub fn c16(thorough: bool, stats: &mut Stats) -> Vec<Failure> {
                             match globs {
                                 1 => argv.extend(["-g".into(), "**/*.txt".into()]),
                                 2 => argv.extend(["-g".into(), "**/*.lua".into(), "-g".into(), "!**/d.lua".into()]),
+                                3 => argv.extend(["-g".into(), "!**/d.lua".into()]),
                                 _ => {}
                             }
                             if respect {
@@ -1240,7 +1248,8 @@ pub fn c16(thorough: bool, stats: &mut Stats) -> Vec<Failure> {
         }
     }
     let idx: std::collections::HashMap<String, usize> = scs.iter().enumerate().map(|(i, s)| (s.desc.clone(), i)).collect();
-    run_all(scs, "E2-C16", stats, |s, o| {
+    let mut outside = c16_outside(stats);
+    let mut all = run_all(scs, "E2-C16", stats, |s, o| {
         let mut f = vec![];
         let (args, ign, globs, respect, hidden, mode) = &metas[idx[&s.desc]];
         let want = c16_model(args, *ign, *globs, *respect, *hidden);
@@ -1279,6 +1288,70 @@ pub fn c16(thorough: bool, stats: &mut Stats) -> Vec<Failure> {
                 let missing: Vec<&String> = want.difference(&got).collect();
                 f.push(("wrong-selection".into(), format!("processed but not selected: {:?}; selected but not processed: {:?}", extra, missing)));
             }
+        }
+        f
+    });
+    all.append(&mut outside);
+    all
+}
+
+/// C16 addendum: files named explicitly that lie OUTSIDE the working directory (no ignore file of the working directory
+/// governs them): formatted, with and without --respect-ignores, under every spelling
+fn c16_outside(stats: &mut Stats) -> Vec<Failure> {
+    let mut scs = vec![];
+    // (whether patterns of the working directory's ignore file that could match a path outside of it do reach it is
+    // not specified anywhere — the two spellings of such a path even disagree; only patterns that cannot match are used)
+    for ign in [None, Some("v/\n"), Some("a.lua\n")] {
+        for oign in [None, Some("x.lua\n")] {
+            for arg in ["$ROOT/o/x.lua", "../o/x.lua", "$ROOT/o/x.lua a.lua", "a.lua ../o/x.lua", "$ROOT/w/a.lua", "$ROOT/o"] {
+                for respect in [false, true] {
+
+                    let mut t = Tree::default();
+                    t.add("w/a.lua", UNF.as_bytes());
+                    t.add("o/x.lua", UNF.as_bytes());
+                    t.add("o/y.txt", UNF.as_bytes());
+                    if let Some(i) = ign {
+                        t.add("w/.styluaignore", i.as_bytes());
+                    }
+                    if let Some(i) = oign {
+                        t.add("o/.styluaignore", i.as_bytes());
+                    }
+                    let mut argv: Vec<String> = vec!["--color".into(), "Never".into()];
+                    if respect {
+                        argv.push("--respect-ignores".into());
+                    }
+                    argv.push("--".into());
+                    argv.extend(arg.split(' ').map(|s| s.to_string()));
+                    let desc = format!("C16 outside-cwd args={:?} cwd-styluaignore={:?} other-styluaignore={:?} respect_ignores={}", arg, ign, oign, respect);
+                    scs.push(Scenario { desc, tree: t, run: Run { argv, cwd: "w".into(), ..Run::default() } });
+                }
+            }
+        }
+    }
+    run_all(scs, "E2-C16", stats, |s, o| {
+        let mut f = vec![];
+        let respect = s.desc.contains("respect_ignores=true");
+        let o_ignored = s.desc.contains("other-styluaignore=Some");
+        let a_ignored = s.desc.contains("cwd-styluaignore=Some(\"a.lua");
+        let mut want = std::collections::BTreeSet::new();
+        let args: Vec<&str> = s.run.argv.iter().skip_while(|a| *a != "--").skip(1).map(|a| a.as_str()).collect();
+        for a in &args {
+            if a.ends_with("a.lua") && !(respect && a_ignored) {
+                want.insert("w/a.lua".to_string());
+            }
+            if a.ends_with("o/x.lua") && !(respect && o_ignored) {
+                want.insert("o/x.lua".to_string());
+            }
+            if a.ends_with("/o") && !o_ignored {
+                want.insert("o/x.lua".to_string());
+            }
+        }
+        if o.code != 0 {
+            f.push(("exit-status".into(), format!("exit {}: {}", o.code, String::from_utf8_lossy(&o.stderr).chars().take(160).collect::<String>())));
+        }
+        let changed: std::collections::BTreeSet<String> = o.after.iter().filter(|(k, v)| o.before.get(*k).map(|x| &x.0) != Some(&v.0)).map(|(k, _)| k.clone()).collect();
+        if changed != want {
+            f.push(("wrong-selection".into(), format!("formatted: {:?}; selected: {:?}", changed, want)));
         }
         f
     })
@@ -1334,6 +1407,14 @@ pub fn c17(thorough: bool, stats: &mut Stats) -> Vec<Failure> {
         ("ignored.lua", vec!["--stdin-filepath", "ignored.lua"]),
         ("ignored.lua+respect", vec!["--respect-ignores", "--stdin-filepath", "ignored.lua"]),
         ("src/x.lua+respect", vec!["--respect-ignores", "--stdin-filepath", "src/x.lua"]),
+        // a path re-included by a negated pattern is not ignored; its sibling is
+        ("vendor/patched.lua+respect", vec!["--respect-ignores", "--stdin-filepath", "vendor/patched.lua"]),
+        ("vendor/other.lua+respect", vec!["--respect-ignores", "--stdin-filepath", "vendor/other.lua"]),
+        // paths outside the working directory (no ignore file governs them)
+        ("abs-outside+respect", vec!["--respect-ignores", "--stdin-filepath", "/nonexistent-mc-dir/x.lua"]),
+        ("../outside+respect", vec!["--respect-ignores", "--stdin-filepath", "../outside-mc/x.lua"]),
+        ("abs-inside+respect", vec!["--respect-ignores", "--stdin-filepath", "$ROOT/src/x.lua"]),
+        ("abs-ignored+respect", vec!["--respect-ignores", "--stdin-filepath", "$ROOT/ignored.lua"]),
     ];
     let mut scs = vec![];
     let mut metas = vec![];
@@ -1344,8 +1425,12 @@ pub fn c17(thorough: bool, stats: &mut Stats) -> Vec<Failure> {
                     if bytes.len() > 100_000 && (*oname != "plain" || !matches!(*fname, "none" | "ignored.lua+respect") || with_cfg) {
                         continue;
                     }
+                    // which configuration governs a path outside the working directory is C15's subject: defaults only here
+                    if with_cfg && fname.contains("outside") {
+                        continue;
+                    }
                     let mut t = Tree::default();
-                    t.add(".styluaignore", b"ignored.lua\n");
+                    t.add(".styluaignore", b"ignored.lua\nvendor/*\n!vendor/patched.lua\n");
                     t.add("src/keep.lua", b"local   untouched  =  1\n");
                     if with_cfg {
                         t.add("stylua.toml", b"indent_type = \"Spaces\"\nindent_width = 2\n");
@@ -1393,7 +1478,7 @@ pub fn c17(thorough: bool, stats: &mut Stats) -> Vec<Failure> {
             cfg.le = 1;
         }
         let range = if oname == "range" { Some((Some(0usize), Some(16usize))) } else { None };
-        let skipped = fname == "ignored.lua+respect";
+        let skipped = matches!(fname.as_str(), "ignored.lua+respect" | "vendor/other.lua+respect" | "abs-ignored+respect");
         let expected: Option<String> = if skipped {
             Some(input.clone())
         } else {
